@@ -45,6 +45,12 @@ def large_kb():
     big.append(rule(cplx("reach", X, Y), AND(C("next", X, Z), C("reach", Z, Y))))
     big.append(rule(cplx("pair", X, Y), AND(C("num", X), C("num", Y), bip("greater_than", X, i(34)), bip("less_than", Y, i(4)))))
     for k in range(1, 13): big.append(rule(cplx("many", X), AND(C("n", X), bip("less_than", X, i(k % 4 + 1)))))
+    # a predicate of 300 clauses; a clause with 20 distinct variables; a body of 40 goals
+    for k in range(1, 301): big.append(fact("item", i(k), i(k % 7)))
+    vs = [var(0, "$W%d" % k) for k in range(20)]
+    big.append(rule(cplx("wide", lst(vs), vs[0], vs[19])))
+    big.append(rule(cplx("usewide", X, Y), C("wide", lst([i(k) for k in range(20)]), X, Y)))
+    big.append(rule(cplx("longbody", X), AND(*([C("zero")] * 20 + [C("n", X)] + [C("zero")] * 19))))
     return big
 
 def large_cases(tier, rng):
@@ -60,7 +66,9 @@ def large_cases(tier, rng):
     qs = [([atom("num"), V("$N")], 45), ([atom("reach"), i(1), V("$To")], 35), ([atom("reach"), V("$From"), i(31)], 35),
           ([atom("reach"), i(20), V("$To")], 15), ([atom("pair"), V("$A"), V("$B")], 22), ([atom("many"), V("$M")], 30),
           ([atom("mem"), V("$E"), l16], 20), ([atom("app"), V("$P"), V("$S"), l9], 14), ([atom("len"), l16, V("$N")], 3),
-          ([atom("app"), l9, l16, V("$R")], 3), ([atom("mem"), i(4), l16], 6)]
+          ([atom("app"), l9, l16, V("$R")], 3), ([atom("mem"), i(4), l16], 6),
+          ([atom("item"), V("$K"), i(3)], 46), ([atom("item"), i(257), V("$M")], 3), ([atom("item"), i(300), V("$M")], 3),
+          ([atom("usewide"), V("$A"), V("$B")], 3), ([atom("longbody"), V("$A")], 5)]
     # numbers beyond the small ones: integers above 2^53 that differ by one, floats that differ in the last place
     for k in (2**53, 2**53 + 1, 2**53 + 2, 2**62, 2**62 + 1): big.append(fact("stamp", i(k)))
     for f in (0.3, 0.1 + 0.2, 0.1, 0.10000000000000002, 1e-17, 0.0): big.append(fact("fl", flt(f)))
